@@ -131,8 +131,9 @@ def lifecycle(case, res, hist=None):
                     if same:
                         continue
                     if old.get('state') in ('ERROR', 'CANCELLED') and \
-                            is_rerun_actor(actor) and \
-                            new.get('state') == 'RUNNING':
+                            is_rerun_actor(actor):
+                        # explicit rerun / skip (it may finish the
+                        # execution again within the same transaction)
                         continue
                     out.append((
                         'C03.finished_wf_changed',
